@@ -23,6 +23,7 @@ RULE = (
     "external cancellation at every quiescent point, all completion orders; non-trivial = the "
     "block does not end by a plain return, or a disposable or spawned task fails or suspends"
 )
+RULE += ' Rounds 10-11: LONG chains of 4-9 nested blocks (6 kind patterns x 3 supply patterns x return / raise); WIDE contexts (9-12 state types carried by the surrounding block).'
 ASSUMPTIONS = [
     "fingerprint = (ctx.state probe, scope label+identifier seen by ctx.log_info, owner of a task "
     "spawned by ctx.spawn observed through who waits for / cancels it)",
